@@ -123,7 +123,10 @@ def run1 (c : Case) : CaseResult := Id.run do
             -- in the aligned-sides class the optimum is the taut route along the common side line, which
             -- libavoid finds; the message prefix keeps that class out of the known "not-minimal" finding
             let pre := if c.tag.startsWith "aligned-sides" then "aligned-not-minimal"
-              else if c.tag.startsWith "fractional" then "fractional-not-minimal" else "not-minimal"
+              else if c.tag.startsWith "fractional" then "fractional-not-minimal"
+              -- edit histories: a route that detours although the straight segment is free (certified) is not
+              -- the known penalty finding (which is about trading bends against length)
+              else if c.tag.startsWith "edit-history" && wit.length == 2 then "history-not-minimal" else "not-minimal"
             fails := (0, .specfail s!"{pre} conn {id} (penalty {dec penalty}): route cost length+penalty·bends ≥ {dec implCostLo} ({nb} bends) but a certified obstacle-free path of cost ≤ {dec witCostHi} ({bends witPts} bends) exists") :: fails
           else
             -- lower side: only compared with the oracle's (unverified) optimum
